@@ -278,9 +278,8 @@ func runL2VLAN(t fataler, e *cidEnv, c l2Case) (knownSig string) {
 		}
 	}
 	if n := len(dumpKernel(t, e.maps["vlan_subscriber_pools"])); n != len(c.pairs) {
-		if fail(sig(sigVLAN, "go-keys-collide"), "%d distinct (s, c) pairs %v are stored as %d entries", len(c.pairs), c.pairs, n) {
-			return
-		}
+		// the control plane itself stores two distinct pairs under one key: C20's business, nothing to compare here
+		return "go-side-collision"
 	}
 	e.push(t)
 	probe := mac6{2, 0xaa, 0xbb, 0, 0, 7}
@@ -501,7 +500,14 @@ func runL2MAC(t fataler, e *cidEnv, c l2Case) (knownSig string) {
 	var ch [16]byte
 	copy(ch[:], c.absent[:])
 	if hit, y, _ := e.runDiscover(t, l2Frame(c.absent, nil, bootpHW(1, 0x3000, 1, 6, ch, ip4{}, nil))); hit {
-		if fail(sig(sigMAC, "answers-without-entry"), "no lease exists for %x, yet its DISCOVER is answered with %s, the address of %s", c.absent, ipOf(y), who(y)) {
+		sg := sig(sigMAC, "answers-without-entry")
+		for _, cl := range clients {
+			if cl.leased && cl.ip == y && cl.hlen < 6 {
+				// the entry that answers was stored for a client with a short hardware address (under key 0)
+				sg = sig(sigMAC, "hlen-under-6", "answers-other-address")
+			}
+		}
+		if fail(sg, "no lease exists for %x, yet its DISCOVER is answered with %s, the address of %s", c.absent, ipOf(y), who(y)) {
 			return
 		}
 	}
